@@ -29,9 +29,24 @@ U = "u@example.com"
 V1 = "v@example.com"
 V2 = "u@other.org"
 R1 = "sales@example.com"
+DIS = "dis@example.com"        # a user that exists and is disabled: only offered when reject_unknown_user is on
 BAD = ["bad", "x@y@z"]
 ROLES = [R1]
-FOLDERS = {"la": "INBOX", "lb": "D"}
+BIG = 52428800
+DEFAULT_CFG = {"folder": "INBOX"}
+
+
+def cfg_of(t):
+    """configuration of a transaction with the defaults of config.DefaultConfig filled in"""
+    c = dict(DEFAULT_CFG)
+    c.update(t.get("cfg") or {})
+    if "conn" in t and "cfg" not in t:          # corpus files of the first rounds
+        c["folder"] = {"la": "INBOX", "lb": "D"}[t["conn"]]
+    return c
+
+
+def folder_of(t):
+    return cfg_of(t)["folder"]
 CLASS_NAMES = {2: "dup_rcpt_last_result"}   # retired: 1 = single_554 (raven aeac4b2), 3 = noboundary_unfetchable (raven f7e0490)
 
 
@@ -42,13 +57,20 @@ def build_ops(hist, txns):
     ops, index = c03.driver_ops(hist)
     nh = len(ops)
     ops += [{"op": "role_create", "email": R1}, {"op": "role_assign", "user": U, "role": 1},
-            {"op": "lmtp_open", "conn": "la"}, {"op": "send", "conn": "la", "data": "LHLO x\r\n", "until": "lmtp:1"},
-            {"op": "lmtp_open", "conn": "lb", "default_folder": "D"}, {"op": "send", "conn": "lb", "data": "LHLO x\r\n", "until": "lmtp:1"},
+            {"op": "c17_user_create", "name": "dis", "domain": "example.com"},
+            {"op": "c17_user_disable", "name": "dis", "domain": "example.com"},
             {"op": "dump"}]
     pre = len(ops) - 1
     tpos = []
-    for t in txns:
-        ops.append({"op": "c01_txn", "conn": t["conn"], "from": "a@example.com", "rcpts": t["rs"], "data": t["msg"]["raw"]})
+    for i, t in enumerate(txns):
+        c = cfg_of(t)
+        o = {"op": "lmtp_open", "conn": "t%d" % i, "default_folder": c["folder"]}
+        for k in ("max_size", "max_recipients", "quota_enabled", "quota_limit", "reject_unknown_user", "allowed_domains"):
+            if k in c:
+                o[k] = c[k]
+        ops.append(o)
+        ops.append({"op": "send", "conn": "t%d" % i, "data": "LHLO x\r\n", "until": "lmtp:1"})
+        ops.append({"op": "c01_txn", "conn": "t%d" % i, "from": "a@example.com", "rcpts": t["rs"], "data": t["msg"]["raw"]})
         ops.append({"op": "dump"})
         tpos.append(len(ops) - 2)
     # fresh IMAP sessions: one per user store, the role store through its assignee
@@ -164,6 +186,9 @@ class Scen:
         self.dumps = [stores_by_key(obs[pre])] + [stores_by_key(obs[p + 1]) for p in tpos]
         self.codes = [codes_of(obs[p].get("final")) for p in tpos]
         self.finals = [obs[p].get("final") for p in tpos]
+        # the recipients accepted at RCPT time (250): the positions of the transaction
+        self.rcpt_codes = [codes_of(obs[p].get("rcpt")) for p in tpos]
+        self.acc = [[r for r, c in zip(t["rs"], rc) if c == 250] for t, rc in zip(self.txns, self.rcpt_codes)]
         # fetched literals and STATUS counts: (key, folder) -> {uid: literal}
         self.fetch, self.status = {}, {}
         for (addr, kind, fo, tag, p) in fpos:
@@ -187,8 +212,8 @@ class Scen:
         final = self.dumps[-1]
         for ti, t in enumerate(self.txns):
             pre, post = self.dumps[ti], self.dumps[ti + 1]
-            codes, rs, msg = self.codes[ti], t["rs"], t["msg"]
-            target = "Spam" if msg["spam"] else FOLDERS[t["conn"]]
+            codes, rs, msg = self.codes[ti], self.acc[ti], t["msg"]
+            target = "Spam" if msg["spam"] else folder_of(t)
             self.positions += len(rs)
             keys = set(pre) | set(post)
             new, gone = {}, {}
@@ -248,9 +273,14 @@ class Scen:
     # ---- Coq term
     def coq_term(self):
         hist = "(run %s %s)" % (C.coq_list(self.h.model_ops), self.h.init)
-        w = "(mkW %s [(%s, mkU %s []); (%s, mkU (init 0) [])])" % (
-            C.coq_list([C.coq_str(r) for r in ROLES]), coq_key(key_of_rcpt(U)), hist, coq_key(("role", R1)))
-        ts = C.coq_list(["(%s, %s, %s)" % (C.coq_str(FOLDERS[t["conn"]]), C.coq_list([C.coq_str(r) for r in t["rs"]]), coq_parsed(t["msg"])) for t in self.txns])
+        w = "(mkW %s [(%s, mkU %s []); (%s, mkU (init 0) []); (%s, mkU (init 0) [])])" % (
+            C.coq_list([C.coq_str(r) for r in ROLES]), coq_key(key_of_rcpt(U)), hist, coq_key(("role", R1)), coq_key(key_of_rcpt(DIS)))
+        ts = []
+        for ti, t in enumerate(self.txns):
+            c = cfg_of(t)
+            ts.append("(mkCfg %s %s %s, %s, %s, %s)" % (C.coq_str(c["folder"]), C.coq_z(c.get("max_size", BIG)), C.coq_bool(c.get("quota_enabled", False)),
+                                                      C.coq_list([C.coq_str(r) for r in self.acc[ti]]), coq_parsed(t["msg"]), C.coq_z(len(t["msg"]["raw"]))))
+        ts = C.coq_list(ts)
         os_ = []
         for ti in range(len(self.txns) + 1):
             codes = [] if ti == 0 else self.codes[ti - 1]
@@ -292,13 +322,49 @@ def evaluate(scens, name):
 # --------------------------------------------------------------------------
 # generators
 
-def gen_rs(rng):
-    pool = [U, U, U, V1, V2, R1, R1] + BAD
+def gen_rs(rng, with_disabled):
+    pool = [U, U, U, V1, V2, R1, R1] + BAD + ([DIS, DIS] if with_disabled else [])
     n = rng.choice([1, 1, 2, 2, 3, 4, 5])
     rs = [rng.choice(pool) for _ in range(n)]
     if rng.random() < 0.35:
         rs.insert(rng.randint(0, len(rs)), rng.choice(rs))       # a duplicate
     return rs
+
+
+def gen_txn(rng, tag, earlier_sizes):
+    """one transaction: message, recipients and a configuration. The configuration
+    dimension: default folder; quota_enabled x quota_limit (far above / just above /
+    just below the message size / hopeless / filled by the scenario's earlier
+    deliveries); max_size at, just below, just above the message size;
+    max_recipients at / below the recipient count; reject_unknown_user (unknown
+    users, a role address, a disabled user, a malformed address); allowed_domains."""
+    msg = M.gen_message(rng, tag)
+    size = len(msg["raw"])
+    c = {"folder": rng.choice(["INBOX", "INBOX", "D"])}
+    kinds = []
+    if rng.random() < 0.65:
+        if rng.random() < 0.45:
+            c["quota_enabled"] = True
+            how = rng.choice(["far", "above", "below", "hopeless", "filled"])
+            c["quota_limit"] = {"far": 20 * BIG, "above": size + 64, "below": max(1, size - 1), "hopeless": 1,
+                                "filled": max(1, sum(earlier_sizes) + size // 2)}[how]
+            kinds.append("quota_" + how)
+        if rng.random() < 0.25:
+            how = rng.choice(["at", "under", "over"])
+            c["max_size"] = {"at": size, "under": size - 1, "over": size + 1}[how]
+            kinds.append("max_size_" + how)
+        if rng.random() < 0.25:
+            c["reject_unknown_user"] = True
+            kinds.append("reject_unknown_user")
+        if rng.random() < 0.25:
+            c["allowed_domains"] = rng.choice([["example.com"], ["other.org"], ["example.com", "other.org"], ["nowhere.test"]])
+            kinds.append("allowed_domains")
+    rs = gen_rs(rng, c.get("reject_unknown_user", False))
+    if rng.random() < 0.2:
+        how = rng.choice(["at", "under", "one"])
+        c["max_recipients"] = {"at": len(rs), "under": max(1, len(rs) - 1), "one": 1}[how]
+        kinds.append("max_recipients_" + how)
+    return {"cfg": c, "cfg_kinds": kinds or ["default"], "rs": rs, "msg": msg}
 
 
 DIRECTED = [
@@ -329,7 +395,7 @@ def gen_scenario(rng, n, hist_len, copy_ok):
         hist = c03.gen_history(rng, rng.randint(0, hist_len), rng.random() < 0.3, copy_ok)
     txns = []
     for j in range(rng.choice([1, 2, 2, 3])):
-        txns.append({"conn": rng.choice(["la", "la", "lb"]), "rs": gen_rs(rng), "msg": M.gen_message(rng, "%dx%d" % (n, j))})
+        txns.append(gen_txn(rng, "%dx%d" % (n, j), [len(t["msg"]["raw"]) for t in txns]))
     return hist, txns
 
 
@@ -371,7 +437,7 @@ def judge(chk, sc, ev, origin, stats):
         else:
             unclassified += 1
         t = sc.txns[ti]
-        chk.violation("transaction %d (%s, recipients %r, replies %r): %s: %s" % (ti, t["msg"]["kind"], t["rs"], sc.codes[ti], kind, detail),
+        chk.violation("transaction %d (%s, cfg %r, accepted recipients %r, replies %r): %s: %s" % (ti, t["msg"]["kind"], t.get("cfg") or cfg_of(t), sc.acc[ti], sc.codes[ti], kind, detail),
                       dict(payload, txn=ti, finals=sc.finals[ti]), cls=cls)
     if not pre_ok:
         stats["hist_mismatch"] += 1
@@ -392,14 +458,14 @@ def judge(chk, sc, ev, origin, stats):
                         found = True
                         t = nsc.txns[ti]
                         chk.violation("near a model/implementation disagreement: transaction %d (%s, recipients %r, replies %r): %s: %s" % (
-                            ti, t["msg"]["kind"], t["rs"], nsc.codes[ti], kind, detail),
+                            ti, t["msg"]["kind"], nsc.acc[ti], nsc.codes[ti], kind, detail),
                             {"suite": "deliver", "origin": origin + "/neighbourhood", "hist": nsc.hist, "txns": nsc.txns, "txn": ti})
                         break
                 if found:
                     break
             if not found:
                 chk.broken_obligation("correspondence deliver no longer checks: model (Model/Deliver.v) and implementation differ in %s after transaction %d (%s, recipients %r): observed replies %r, model %r; no violation of the property itself was observed here or in the neighbourhood" % (
-                    names.get(e[0], "?"), i, sc.txns[i]["msg"]["kind"], sc.txns[i]["rs"], sc.codes[i], e[2]), dict(payload, txn=i, code=e[0]))
+                    names.get(e[0], "?"), i, sc.txns[i]["msg"]["kind"], sc.acc[i], sc.codes[i], e[2]), dict(payload, txn=i, code=e[0]))
     else:
         # model == implementation: the Coq classifier and the observation-only oracle must agree
         for ti in range(len(sc.txns)):
@@ -409,7 +475,7 @@ def judge(chk, sc, ev, origin, stats):
                 pass        # already reported as violation above (unclassified) or narrow python class
             if ccls != 0 and not any(v[0] == ti for v in sc.viol):
                 stats["spec_disagree"] += 1
-                chk.notes.append("classifier says %s, the observation-only oracle saw no violation (%s, %r)" % (CLASS_NAMES.get(ccls), sc.txns[ti]["msg"]["kind"], sc.txns[ti]["rs"]))
+                chk.notes.append("classifier says %s, the observation-only oracle saw no violation (%s, %r)" % (CLASS_NAMES.get(ccls), sc.txns[ti]["msg"]["kind"], sc.acc[ti]))
             if ccls == 0:
                 stats["clean"] += 1
                 if not any(v[0] == ti for v in sc.viol):
@@ -448,7 +514,8 @@ def run(chk):
     # ---- 2. generated scenarios
     n_scen, hist_len = (96, 14) if quick else (1500, 30)
     items = [gen_scenario(chk.rng, i, hist_len, copy_ok) for i in range(n_scen)]
-    kinds, rk, combos = {}, {}, set()
+    kinds, rk, combos, cfgk = {}, {}, set(), {}
+    refused_rcpt = oversize = 0
     batch = 48
     sample_done = False
     for b in range(0, len(items), batch):
@@ -475,11 +542,16 @@ def run(chk):
                 kinds[t["msg"]["kind"]] = kinds.get(t["msg"]["kind"], 0) + 1
                 for r in t["rs"]:
                     rk[r] = rk.get(r, 0) + 1
+                for ck in t.get("cfg_kinds", ["default"]):
+                    cfgk[ck] = cfgk.get(ck, 0) + 1
+                refused_rcpt += len(t["rs"]) - len(sc.acc[ti])
+                if sc.codes[ti] and all(c == 552 for c in sc.codes[ti]):
+                    oversize += 1
                 if any(200 <= c < 300 for c in sc.codes[ti]):
-                    combos.add((t["msg"]["kind"], tuple(sorted(set(t["rs"]))), len(t["rs"]) != len(set(t["rs"])), t["conn"],
+                    combos.add((t["msg"]["kind"], tuple(sorted(set(sc.acc[ti]))), len(sc.acc[ti]) != len(set(sc.acc[ti])), folder_of(t), tuple(t.get("cfg_kinds", [])),
                                 tuple(sorted(set(s["k"] for s in sc.hist)))))
             if not sample_done and sc.txns:
-                chk.sample({"history": sc.hist[:6], "recipients": sc.txns[0]["rs"], "message_kind": sc.txns[0]["msg"]["kind"],
+                chk.sample({"history": sc.hist[:6], "configuration": cfg_of(sc.txns[0]), "recipients": sc.txns[0]["rs"], "accepted_at_rcpt": sc.acc[0], "message_kind": sc.txns[0]["msg"]["kind"],
                             "replies": sc.codes[0], "model_replies": ev[1][2] if len(ev) > 1 else None, "agreement_code": ev[1][0] if len(ev) > 1 else None})
                 sample_done = True
     chk.cov["evaluations"] = n_eval
@@ -495,6 +567,9 @@ def run(chk):
     chk.cov["disagreements_checked"] = stats["diff"]
     chk.cov["message_kinds"] = kinds
     chk.cov["recipient_kinds"] = rk
+    chk.cov["configuration_kinds"] = cfgk
+    chk.cov["recipients_refused_at_rcpt"] = refused_rcpt
+    chk.cov["transactions_refused_oversize_552"] = oversize
     chk.cov["transactions_outside_classes"] = stats["clean"]
     chk.cov["transactions_outside_classes_spec_holds_on_impl"] = stats["clean_ok"]
     chk.cov["known_class_hits"] = stats["known"]
@@ -519,7 +594,7 @@ def replay(path):
     evs, log = evaluate([sc], PID + "_replay")
     print("history ops:", sc.h.model_ops)
     for ti, t in enumerate(sc.txns):
-        print("transaction %d: folder %s recipients %r message %s -> replies %r" % (ti, FOLDERS[t["conn"]], t["rs"], t["msg"]["kind"], sc.finals[ti]))
+        print("transaction %d: cfg %r recipients %r (accepted at RCPT: %r) message %s (%d bytes) -> replies %r" % (ti, cfg_of(t), t["rs"], sc.acc[ti], t["msg"]["kind"], len(t["msg"]["raw"]), sc.finals[ti]))
     print("[(agreement, class, model replies)] (element 0 = world before the first transaction):", evs[0] if evs else log[-1500:])
     for v in sc.viol:
         print("observed violation:", v)
